@@ -11,8 +11,15 @@
    Styling (nested styles of regions, referential and specified styling, <set>) is applied at the
    points where the code applies it, with the functions of Model/ImscStyles.v; reading a style value
    and the model's validity test are functions of the environment.
-   Not modelled: log records; children of br / set / region elements other than region/style and
-   region/set (never valid TTML) inherit the language of the grandparent. *)
+   Children that are no content elements - tt:metadata and the ttm: vocabulary, elements of foreign namespaces, tt: elements the
+   reader does not know (or knows elsewhere: tt:head, tt:style outside a region, ...) and the comment / processing-instruction
+   nodes ElementTree can present (Base/ImscXml.v T_comment, T_pi) - are the trees that [classify] maps to None
+   (ContentElement.from_xml returns None; a tt:region without xml:id is the other case: RegionElement.from_xml returns None):
+   process gives PSkip and the children loop reads nothing of them but their tail, which is character content of the parent like
+   any other text (the step "process tail text node" runs for every child, whatever from_xml returned).  The same holds in the
+   document walk: tt, head, layout and styling pick the children they know and ignore the others together with every text and tail.
+   The children of a <set> are not read at all (`break`: <set> has no content children).
+   Not modelled: log records. *)
 From TT Require Import Base.Prelude Base.ImscXml Model.ImscTime Model.ImscStyles.
 From Coq Require Import QArith Qminmax.
 Local Open Scope Z_scope.
@@ -168,6 +175,9 @@ Section Children.
         else
         (* the previous child of a sequential container never ends: the remaining children never begin (`break`) *)
         if negb par && match send with None => true | Some _ => false end then LDone iend kids anims pf nst
+        else
+        (* <set> has no content children, and neither xml:space nor xml:lang for them to inherit (`break`) *)
+        if ekind_eqb k KSet then LDone iend kids anims pf nst
         else
         match proc (mkPctx par send preserve lang (negb (ekind_eqb k KSet))) c with
         | PErr e => LErr e
